@@ -176,3 +176,47 @@ class _Gen:
             # rewrite the tile for the next phase (own element only; the barrier orders it)
             out += pad + "s[%s] = s[%s] + 1;\n" % (iexpr, iexpr)
         return out
+
+
+def reference(src):
+    """Sequential reading of a generated kernel as plain C++ (`extern "C" void kref(...)`): @outer/@inner
+    loops are ordinary loops, a @shared array is a fresh array per outer iteration, an @exclusive variable
+    is an array indexed by the linearised inner index, @barrier and @atomic disappear.  Written from the
+    generator's own templates - it does not use any OCCA code."""
+    import re
+    out = []
+    iexpr = None
+    down_from = None
+    for line in src.split("\n"):
+        l = line
+        l = l.replace("@kernel void k(", 'extern "C" void kref(')
+        l = re.sub(r";\s*@tile\(\d+, @outer, @inner\)\)", ")", l)
+        l = re.sub(r";\s*@outer\)", ")", l)
+        if re.search(r";\s*@inner\)", l):
+            l = re.sub(r";\s*@inner\)", ")", l)
+        # an @exclusive value belongs to the work item, i.e. to the *position* in the inner loop's iteration
+        # order, not to the iterator value: a loop that counts down visits position 0 with its largest value
+        mdown = re.match(r"\s*for \(int i = (\d+); i >= 0; --i\)", l)
+        if mdown:
+            down_from = int(mdown.group(1))
+        elif re.match(r"\s*for \(int i = 0; i < \d+; \+\+i\)", l):
+            down_from = None
+        m = re.match(r"\s*const int g = (.*);", l)
+        if m:
+            if "(ia * 2 + ib)" in l:
+                iexpr = "(ia * 2 + ib)"
+            else:
+                iexpr = "i" if down_from is None else "(%d - i)" % down_from
+        l = re.sub(r"@shared int s\[(\d+)\];", r"int s[\1];", l)
+        if "@exclusive int e;" in l:
+            l = l.replace("@exclusive int e;", "int e[64];")
+        elif "@exclusive int *p;" in l:
+            l = l.replace("@exclusive int *p;", "int *p[64];")
+        else:
+            if iexpr is not None:
+                l = re.sub(r"(?<![A-Za-z0-9_])e(?![A-Za-z0-9_\[])", "e[%s]" % iexpr, l)
+                l = re.sub(r"(?<![A-Za-z0-9_])p(?![A-Za-z0-9_\[])", "p[%s]" % iexpr, l)
+        l = l.replace("@barrier();", ";")
+        l = l.replace("@atomic ", "")
+        out.append(l)
+    return "\n".join(out)
